@@ -38,6 +38,14 @@ def json_roundtrip(tier, seed):
         back = FileHash.from_json(fh.to_json())
         if fields(back) != fields(fh):
             failures.append(dict(kind="FileHash", value=repr(fields(fh)), back=repr(fields(back))))
+        if not fh.is_unknown:
+            # a sibling that compares equal (same digest, mode, size) with another mtime and inode, saved right after:
+            # the stored form is a function of all five fields, not of what == looks at
+            sib = FileHash(fh.digest, fh.mode, fh.mtime + 100.5, fh.size, fh.inode ^ 1)
+            back = FileHash.from_json(sib.to_json())
+            if fields(back) != fields(sib):
+                failures.append(dict(kind="FileHash (saved after an equal hash with other mtime / inode)",
+                                     value=repr(fields(sib)), back=repr(fields(back))))
         if k % 4 == 0:
             inp = {rstr(): rfh() for _ in range(rnd.randint(0, 3))}
             env = {rstr(): rnd.choice([None, rstr()]) for _ in range(rnd.randint(0, 3))}
